@@ -379,7 +379,8 @@ theorem leaf_spec (lc : Option PCtx) (lhs : Obj) (rc : Option PCtx) (rhs : Obj) 
     sel.isMode = true ∧ isValueLike lhs = true ∧ isValueLike rhs = true ∧
     ∃ l ul r ur, unwrap lc lhs = .ok (l, ul) ∧ unwrap rc rhs = .ok (r, ur) ∧
       p.lpath = lp ++ ul ∧ p.rpath = rp ++ ur ∧ p.flow = flowOf lc l rc r ∧
-      p.checked = (isVC lc l || isVC rc r || ((ls || explicit lc l) && (rs || explicit rc r))) ∧
+      p.checked = (isVC lc l || isVC rc r ||
+        ((ls || !ul.isEmpty || explicit lc l) && (rs || !ur.isEmpty || explicit rc r))) ∧
       (p.checked = true → shapeEq (shapeOf lc l) (shapeOf rc r) = true) := by
   unfold assignLeaf at h
   split at h
@@ -916,5 +917,161 @@ theorem getElem?_idxOf_mem (l : List Nat) (s : Nat) (h : s ∈ l) : l[l.idxOf s]
     · have : s ∈ t := by simpa [Ne.symm e] using h
       have hb : (a == s) = false := by simpa using e
       simp [List.idxOf_cons, hb, ih this]
+
+/-! ### explicit shapes: values without an explicit shape occur only as members of views -/
+
+mutual
+/-- a value without "explicit shape" (the `as_signed()` operator of a signed member) occurs only directly
+    inside a view (`inView`); a `Signal` held by a dict/list or given directly is explicit -/
+def okE (inView : Bool) : Obj → Prop
+  | .val _ _ _ _ e => inView = true ∨ e = true
+  | .int _ => True
+  | .view _ _ _ _ ms => okEM true ms
+  | .dict ms => okEM false ms
+  | .list ms => okEM false ms
+  | .proxy _ _ t => okE true t
+def okEM (inView : Bool) : Members → Prop
+  | .nil => True
+  | .cons _ o t => okE inView o ∧ okEM inView t
+end
+
+theorem okEM_mem (b : Bool) : ∀ (ms : Members) (k : Key) (o : Obj), okEM b ms → (k, o) ∈ ms.toList → okE b o
+  | .nil, _, _, _, h => by simp [Members.toList] at h
+  | .cons k' o' t, k, o, hw, h => by
+    rw [okEM] at hw
+    simp only [Members.toList, List.mem_cons, Prod.mk.injEq] at h
+    rcases h with ⟨_, rfl⟩ | h
+    · exact hw.1
+    · exact okEM_mem b t k o hw.2 h
+
+theorem okEM_lookup (b : Bool) : ∀ (ms : Members) (k : Key) (o : Obj), okEM b ms → ms.lookup k = some o → okE b o
+  | .nil, _, _, _, h => by simp [Members.lookup] at h
+  | .cons k' o' t, k, o, hw, h => by
+    rw [okEM] at hw
+    rw [Members.lookup] at h
+    split at h
+    · cases h; exact hw.1
+    · exact okEM_lookup b t k o hw.2 h
+
+def NotProxy (o : Obj) : Prop := ∀ i s t, o ≠ .proxy i s t
+
+/-- one operand is fine: either it is explicit by construction, or strict, or read through an ArrayProxy, or an int -/
+def SideOK (c : Option PCtx) (o : Obj) (strict : Bool) : Prop :=
+  ∃ b, okE b o ∧ (b = true → strict = true ∨ c.isSome = true ∨ isInt o = true)
+
+theorem stripAll_ok : ∀ (o : Obj) (c : Option PCtx) (strict : Bool), SideOK c o strict →
+    SideOK (stripAll c o).1 (stripAll c o).2 strict ∧ NotProxy (stripAll c o).2
+  | .proxy i s t, c, strict, ⟨b, hb, _⟩ => by
+    rw [okE] at hb
+    exact stripAll_ok t (some ⟨i, s⟩) strict ⟨true, hb, fun _ => .inr (.inl rfl)⟩
+  | .val .., c, strict, h => ⟨h, by intro i s t e; cases e⟩
+  | .int _, c, strict, h => ⟨h, by intro i s t e; cases e⟩
+  | .view .., c, strict, h => ⟨h, by intro i s t e; cases e⟩
+  | .dict _, c, strict, h => ⟨h, by intro i s t e; cases e⟩
+  | .list _, c, strict, h => ⟨h, by intro i s t e; cases e⟩
+
+structure Inv (c : Call) : Prop where
+  l : SideOK c.lc c.lhs c.ls
+  np : NotProxy c.lhs
+  r : SideOK c.rc c.rhs c.rs
+
+theorem inv_nrm (lhs : Obj) (lc rc : Option PCtx) (rhs : Obj) (sel : Sel) (ls rs : Bool) (lp rp : Path)
+    (hl : SideOK lc lhs ls) (hr : SideOK rc rhs rs) : Inv (nrm lhs lc rc rhs sel ls rs lp rp) :=
+  ⟨(stripAll_ok lhs lc ls hl).1, (stripAll_ok lhs lc ls hl).2, hr⟩
+
+/-- members of a stripped operand -/
+theorem member_side (c : Option PCtx) (o m : Obj) (strict : Bool) (h : SideOK c o strict) (hnp : NotProxy o)
+    (hm : okEM true o.members → okE true m) (hm' : okEM false o.members → okE false m) :
+    SideOK c m (isValueLike o && !isInt m) := by
+  obtain ⟨b, hb, _⟩ := h
+  cases o with
+  | proxy i s t => exact absurd rfl (hnp i s t)
+  | view k st off sz ms =>
+    rw [okE] at hb
+    refine ⟨true, hm hb, fun _ => ?_⟩
+    cases hi : isInt m <;> simp [isValueLike]
+  | dict ms => rw [okE] at hb; exact ⟨false, hm' hb, fun h => by cases h⟩
+  | list ms => rw [okE] at hb; exact ⟨false, hm' hb, fun h => by cases h⟩
+  | val st off w sg e =>
+    exact ⟨false, hm' (by simp [Obj.members, okEM]), fun h => by cases h⟩
+  | int v =>
+    exact ⟨false, hm' (by simp [Obj.members, okEM]), fun h => by cases h⟩
+
+/-- the right operand after `strip` -/
+theorem strip_side (c : Option PCtx) (o : Obj) (strict : Bool) (h : SideOK c o strict) :
+    SideOK (strip c o).1 (strip c o).2 strict ∧ ((strip c o).1.isSome = true ∨ NotProxy (strip c o).2) := by
+  cases o with
+  | proxy i s t =>
+    obtain ⟨b, hb, _⟩ := h
+    rw [okE] at hb
+    exact ⟨⟨true, hb, fun _ => .inr (.inl rfl)⟩, .inl rfl⟩
+  | val st off w sg e => exact ⟨h, .inr (by intro i s t e; cases e)⟩
+  | int v => exact ⟨h, .inr (by intro i s t e; cases e)⟩
+  | view k st off sz ms => exact ⟨h, .inr (by intro i s t e; cases e)⟩
+  | dict ms => exact ⟨h, .inr (by intro i s t e; cases e)⟩
+  | list ms => exact ⟨h, .inr (by intro i s t e; cases e)⟩
+
+theorem inv_step {a b : Call} (hi : Inv a) (hs : Step a b) : Inv b := by
+  cases hs with
+  | mk names k o r s' _ _ hmem hlook _ =>
+    have hl : SideOK a.lc o (isValueLike a.lhs && !isInt o) :=
+      member_side a.lc a.lhs o a.ls hi.l hi.np (fun h => okEM_mem true _ k o h hmem) (fun h => okEM_mem false _ k o h hmem)
+    obtain ⟨hR, hRp⟩ := strip_side a.rc a.rhs a.rs hi.r
+    have hr : SideOK a.R.1 r (isValueLike a.R.2 && !isInt r) := by
+      rcases hRp with hsome | hnp
+      · -- read through an ArrayProxy: everything below is explicit
+        obtain ⟨b, hb0, _⟩ := hR
+        have hb : okE b a.R.2 := hb0
+        have : ∃ b', okE b' r := by
+          cases hR2 : a.R.2 with
+          | proxy i s t => rw [hR2] at hlook; simp [Obj.members, Members.lookup] at hlook
+          | view k' st off sz ms =>
+            rw [hR2] at hb hlook; rw [okE] at hb; exact ⟨true, okEM_lookup true _ k r hb hlook⟩
+          | dict ms => rw [hR2] at hb hlook; rw [okE] at hb; exact ⟨false, okEM_lookup false _ k r hb hlook⟩
+          | list ms => rw [hR2] at hb hlook; rw [okE] at hb; exact ⟨false, okEM_lookup false _ k r hb hlook⟩
+          | val st off w sg e => rw [hR2] at hlook; simp [Obj.members, Members.lookup] at hlook
+          | int v => rw [hR2] at hlook; simp [Obj.members, Members.lookup] at hlook
+        obtain ⟨b', hb'⟩ := this
+        exact ⟨b', hb', fun _ => .inr (.inl hsome)⟩
+      · exact member_side a.R.1 a.R.2 r a.rs hR hnp (fun h => okEM_lookup true _ k r h hlook)
+          (fun h => okEM_lookup false _ k r h hlook)
+    exact inv_nrm o a.lc a.R.1 r s' _ _ _ _ hl hr
+
+theorem inv_reach {a b : Call} (hi : Inv a) (hr : Reach a b) : Inv b := by
+  induction hr with
+  | refl _ => exact hi
+  | step hs _ ih => exact ih (inv_step hi hs)
+
+theorem chain_nil (c : Option PCtx) (o o' : Obj) (h : Chain c o [] o') : o' = o := by
+  cases h; rfl
+
+/-- an operand that is neither an int nor a container is explicit, strict, or was reached by unwrapping -/
+theorem side_checked (c : Option PCtx) (o l : Obj) (ul : Path) (strict : Bool) (h : SideOK c o strict)
+    (hp : c.isSome = true ∨ NotProxy o) (hv : isValueLike o = true) (hu : unwrap c o = .ok (l, ul))
+    (hint : isInt l = false) : (strict || !ul.isEmpty || explicit c l) = true := by
+  cases ul with
+  | cons k t => simp
+  | nil =>
+    have := chain_nil c o l (unwrap_chain c o l [] hu)
+    subst this
+    obtain ⟨b, hb, hstrict⟩ := h
+    cases l with
+    | int v => simp [isInt] at hint
+    | dict ms => simp [isValueLike] at hv
+    | list ms => simp [isValueLike] at hv
+    | view k st off sz ms => simp [explicit]
+    | proxy i s t =>
+      rcases hp with hp | hp
+      · simp [explicit, hp]
+      · exact absurd rfl (hp i s t)
+    | val st off w sg e =>
+      rw [okE] at hb
+      rcases hb with hb | hb
+      · rcases hstrict hb with h1 | h1 | h1
+        · simp [h1]
+        · simp [explicit, h1]
+        · simp [isInt] at h1
+      · simp [explicit, hb]
+
 
 end TxV.Assign
